@@ -137,7 +137,7 @@ impl DataShape {
     }
 
     fn set_word(&mut self, word: &str) -> Result<()> {
-        match word.trim_start_matches(self.prefix) {
+        match word.strip_prefix(self.prefix).unwrap_or(word) {
             "newtype" => {
                 self.newtype = true;
                 Ok(())
